@@ -24,6 +24,15 @@ def main():
                                cwd=VERIF, capture_output=True, text=True)
             hit = [l for l in r.stdout.splitlines() if l.startswith("VIOLATION")]
             print("%s: exit %d %s" % (pid, r.returncode, "DETECTED" if hit else "missed"))
+            try:
+                import json
+                mp = os.path.join(d, "meta.json")
+                meta = json.load(open(mp))
+                meta.setdefault("detected_by", {})[pid] = {"detected": bool(hit), "tier": os.environ.get("VERIF_TIER", "quick"),
+                                                            "line": (hit[0] if hit else r.stdout.splitlines()[-1] if r.stdout else "")[:300]}
+                json.dump(meta, open(mp, "w"), indent=1)
+            except Exception as ex:      # recording is best-effort
+                print("    (meta.json not updated: %s)" % ex)
             for l in r.stdout.splitlines()[-4:]:
                 print("    " + l[:300])
     finally:
